@@ -380,6 +380,8 @@ from . import shared
 RULES = RULES + shared.bundle('C10', ['values', 'stride', 'maxpd', 'density', 'limits', 'unit-sum', 'relative', 'norm'], ['direct_model', 'sasview_model', 'bumps_model', 'weights', 'details'])
 from . import folds as _folds
 RULES = RULES + [_folds.fold_rule('C10')]
+from .. import refs as _refs
+RULES = RULES + [_refs.ref_rule('C10')]
 
 
 def run(tier="quick", replay=None):
